@@ -1,4 +1,4 @@
-//@@ unit c14_files properties=C14
+//@@ unit c14_files properties=C14 bounded=files.checkpoint_covers_the_file_the_write_tool_changes
 #![allow(unused_imports, dead_code, unused_variables, unused_mut)]
 use vstd::prelude::*;
 
